@@ -79,6 +79,7 @@ type Stats struct {
 // Driver owns the virtual world of one run.
 type Driver struct {
 	mu    sync.Mutex
+	smu   sync.Mutex // free-run mode: guards the store and the subscriptions
 	plan  *Plan
 	start time.Time
 	h     *Hist
@@ -110,6 +111,7 @@ type Driver struct {
 	maxDepth int
 	panicMsg string
 
+	driverGID    uint64
 	endLeaders   []int
 	owners       map[string]*groupOwner
 	endStep      uint64
@@ -125,14 +127,13 @@ type Driver struct {
 // freeInvoke: free-run mode (C20) applies the operation on the calling
 // goroutine under the driver lock, with latencies as fake-clock sleeps.
 func (d *Driver) freeInvoke(op *Op) opResp {
-	d.mu.Lock()
+	d.smu.Lock()
 	lat1 := d.rLat.Dur(d.plan.Store.Req[0], d.plan.Store.Req[1])
 	lat2 := d.rLat.Dur(d.plan.Store.Resp[0], d.plan.Store.Resp[1])
-	d.mu.Unlock()
+	d.smu.Unlock()
 	time.Sleep(lat1)
-	d.mu.Lock()
+	d.smu.Lock()
 	now := d.now()
-	d.lastNow = now
 	op.ID = len(d.h.Ops)
 	op.TInvoke, op.TApply = now-lat1, now
 	op.Applied = true
@@ -147,10 +148,59 @@ func (d *Driver) freeInvoke(op *Op) opResp {
 		resp = opResp{err: faultErr(f.Err)}
 	} else {
 		resp = d.execOnStore(op, now)
+		if resp.sub != nil {
+			// deliveries in free-run mode: pushed directly
+		}
 	}
-	d.mu.Unlock()
+	d.smu.Unlock()
 	time.Sleep(lat2)
 	return resp
+}
+
+// RunFree executes the plan without central scheduling (C20, race detector).
+func (d *Driver) RunFree() {
+	p := d.plan
+	acts := make([]*Action, 0, len(p.Actions))
+	for i := range p.Actions {
+		if p.Actions[i].OpN == 0 {
+			acts = append(acts, &p.Actions[i])
+		}
+	}
+	sort.SliceStable(acts, func(i, j int) bool { return acts[i].At < acts[j].At })
+	for _, a := range acts {
+		if w := a.At - d.now(); w > 0 {
+			time.Sleep(w)
+		}
+		d.doAction(a)
+	}
+	if w := p.Until - d.now(); w > 0 {
+		time.Sleep(w)
+	}
+	// stop everything
+	d.mu.Lock()
+	d.ending = true
+	var objs []*elObj
+	for _, in := range d.insts {
+		objs = append(objs, in.objs...)
+	}
+	d.mu.Unlock()
+	var wg sync.WaitGroup
+	for _, o := range objs {
+		wg.Add(1)
+		go func(o *elObj) {
+			defer wg.Done()
+			defer func() { recover() }()
+			_ = o.el.Stop()
+		}(o)
+	}
+	wg.Wait()
+	d.smu.Lock()
+	for _, s := range d.subs {
+		s.closeLocked()
+	}
+	d.smu.Unlock()
+	time.Sleep(12 * time.Second)
+	d.stats.VirtualNs = int64(d.now())
 }
 
 func (d *Driver) now() time.Duration { return time.Since(d.start) }
